@@ -151,7 +151,26 @@ fn near_numbers(src: &mut Src) -> (J, String) {
     };
     let mut m = std::collections::BTreeMap::new();
     m.insert("xs".to_string(), J::Arr(rows));
+    // short decimals whose sums and averages are NOT short decimals (0.1 + 0.2): the left
+    // side of a pipe can compute a double that no document spelled
+    let ds: Vec<J> = (0..2 + src.below(5)).map(|_| J::f(*src.pick(&[0.1, 0.2, 0.7, 1.1, 2.2, 0.3, 4.35, 100.1, 1e-7, 0.01]))).collect();
+    m.insert("ds".to_string(), J::Arr(ds));
     (J::Obj(m), pred)
+}
+
+/// Every double in the value is written with at most 15 significant digits
+/// (those are read back exactly by the JSON parser the library builds on).
+fn only_short_floats(j: &J) -> bool {
+    match j {
+        J::Num(crate::model::N::F(f)) => {
+            let t = format!("{:e}", f);
+            let mant = t.split('e').next().unwrap_or("");
+            mant.chars().filter(|c| c.is_ascii_digit()).count() <= 15
+        }
+        J::Arr(a) => a.iter().all(only_short_floats),
+        J::Obj(o) => o.values().all(only_short_floats),
+        _ => true,
+    }
 }
 
 fn compound(src: &mut Src, st: &mut Stats, _env: &Env) -> CaseResult {
@@ -175,7 +194,7 @@ fn compound(src: &mut Src, st: &mut Stats, _env: &Env) -> CaseResult {
     } else {
         src.below(12)
     };
-    let near_l = if kind == 0 { *src.pick(&["xs[*].n", "xs", "xs[0].n", "xs[-1]", "xs[?id > `0`].n", "[xs[0].n, xs[1].n]"]) } else { "xs" };
+    let near_l = if kind == 0 { *src.pick(&["xs[*].n", "xs", "xs[0].n", "xs[-1]", "xs[?id > `0`].n", "[xs[0].n, xs[1].n]", "sum(ds)", "avg(ds)", "[sum(ds), avg(ds), ds]", "{s: sum(ds), a: avg(ds[1:])}", "ds[*].[@, sum([@, `0.2`])]"]) } else { "xs" };
     let l = match if near.is_some() { Some(near_l.to_string()) } else { part(src, st, Some(&doc), 3) } {
         Some(x) => x,
         None => {
@@ -246,9 +265,14 @@ fn compound(src: &mut Src, st: &mut Stats, _env: &Env) -> CaseResult {
             };
             let c = format!("({}) | ({})", l, r);
             let got = run(&c, &dt).map_err(|m| harness_err(m, &c, &dt))?;
+            // (a computed double with 16-17 significant digits does not survive a trip through
+            // JSON text exactly - the parser is accurate to 2 ulp - so for such left results only
+            // the value route below is compared)
+            let text_route_exact = lj.as_ref().map(|j| only_short_floats(j)).unwrap_or(true);
             let want = match (&lv, &lj) {
                 (Out::Err(e), _) => Out::Err(e.clone()),
-                (_, Some(j)) => run(&r, &j.to_json()).map_err(|m| harness_err(m, &r, &dt))?,
+                (_, Some(j)) if text_route_exact => run(&r, &j.to_json()).map_err(|m| harness_err(m, &r, &dt))?,
+                (_, Some(_)) => got.clone(),
                 _ => return Ok(()),
             };
             if !same(&got, &want) {
